@@ -81,8 +81,11 @@ def joint_menu(is_root: bool, menu=None):
 # ------------------------------------------------------------------ MJCF emission
 
 
+GPOSE = 'pos="0.03 0.02 -0.05" quat="0.9 0.1 0.3 -0.2"'
+
+
 def body_xml(i, parents, joints, *, axis=0, anchor=0, frame=1, geom="capsule", jattr="", gattr='contype="0" conaffinity="0"',
-             extra_in_body=None, indent="    "):
+             extra_in_body=None, indent="    ", gpose=GPOSE):
     """Recursive body emitter. joints[i] is a JOINTS key; per-body choices may be ints or per-body lists."""
     def pick(x, k):
         return x[k] if isinstance(x, (list, tuple)) else x
@@ -98,19 +101,20 @@ def body_xml(i, parents, joints, *, axis=0, anchor=0, frame=1, geom="capsule", j
             s += '%s  <joint name="j%d_%d" type="%s" axis="%s" pos="%s" %s/>\n' % (
                 indent, i, jn, jt, AXES[(pick(axis, i) + aoff) % len(AXES)], ANCHORS[pick(anchor, i) % 2], pick(jattr, i))
     g = pick(geom, i)
-    s += '%s  <geom name="g%d" %s pos="0.03 0.02 -0.05" quat="0.9 0.1 0.3 -0.2" %s/>\n' % (indent, i, GEOMS[g], pick(gattr, i))
+    s += '%s  <geom name="g%d" %s %s %s/>\n' % (indent, i, GEOMS[g], pick(gpose, i), pick(gattr, i))
     s += '%s  <site name="s%d" pos="0.02 -0.04 0.06" quat="0.7 -0.1 0.5 0.3"/>\n' % (indent, i)
     if extra_in_body:
         s += pick(extra_in_body, i) if isinstance(extra_in_body, (list, tuple)) else extra_in_body.get(i, "")
     for k in kids:
         s += body_xml(k, parents, joints, axis=axis, anchor=anchor, frame=frame, geom=geom, jattr=jattr, gattr=gattr,
-                      extra_in_body=extra_in_body, indent=indent + "  ")
+                      extra_in_body=extra_in_body, indent=indent + "  ", gpose=gpose)
     s += "%s</body>\n" % indent
     return s
 
 
 def tree_mjcf(parents, joints, *, axis=0, anchor=0, frame=1, geom="capsule", jattr="", gattr='contype="0" conaffinity="0"',
-              option="", compiler="", default="", world_extra="", sections="", extra_in_body=None, size="", asset=""):
+              option="", compiler="", default="", world_extra="", sections="", extra_in_body=None, size="", asset="",
+              gpose=GPOSE):
     """MJCF for a kinematic forest.  `option` is a full <option> element (see option_elem); `sections`
     is raw XML appended after worldbody (actuator/sensor/tendon/equality/contact/keyframe...)."""
     s = "<mujoco>\n"
@@ -126,7 +130,7 @@ def tree_mjcf(parents, joints, *, axis=0, anchor=0, frame=1, geom="capsule", jat
     s += "  <worldbody>\n" + world_extra
     for r in [k for k, p in enumerate(parents) if p == -1]:
         s += body_xml(r, parents, joints, axis=axis, anchor=anchor, frame=frame, geom=geom, jattr=jattr, gattr=gattr,
-                      extra_in_body=extra_in_body)
+                      extra_in_body=extra_in_body, gpose=gpose)
     s += "  </worldbody>\n" + sections + "</mujoco>\n"
     return s
 
